@@ -191,6 +191,21 @@ def check(run: Run) -> None:
             t = strip_sites(fa2.term_of(s.value, n))
             ok = ok or any(a[0] == "app" and a[1] == ("global", "copy.deepcopy") and a[2] and a[2][0][0] == "subscript" and a[2][0][1] == ("attr", VA, "values") for a in unphi_terms(t))
     run.check(ok, "C14.R3", va, va.node, "Attribute of a Dict literal returns (a copy of) the selected value", "no path of visit_Attribute projects a value out of a Dict literal by attribute name")
+    # .. and its result is what visit_Attribute returns: the attribute node is rebuilt only when the value is *not* a Dict
+    n_rebuilt = 0
+    for s, n in fa2.returns():
+        t = strip_sites(fa2.term_of(s.value, n)) if s.value is not None else ("const", None)
+        rebuilt = [a for a in unphi_terms(t) if a[0] == "new" and a[1] == "Attribute" and dict(a[2]).get("value") == VA]
+        if not rebuilt:
+            continue
+        n_rebuilt += 1
+        not_dict = False
+        for a, pol in Facts(fa2, s).atoms:
+            got = match_isinstance(a) if isinstance(a, (ast.Call, ast.Compare)) else None
+            if got is not None and not pol and fa2.cfg.has_node(got[0]) and strip_sites(fa2.term_of(got[0])) == VA and {ast.unparse(c).split(".")[-1] for c in got[1]} == {"Dict"}:
+                not_dict = True
+        run.check(not_dict, "C14.R3", va, s, "Attribute(<visited value>, name) is rebuilt only when the visited value is not a Dict literal", "visit_Attribute can return <dict literal>.<name> although the value is a Dict literal: the result of the key lookup is discarded on some path (e.g. when the selected value has a particular node type) and the dictionary stays in the query", "return self.visit_Subscript_Dict_with_value(visited_value, node.attr)", show(t)[:200], key="attribute of a Dict literal rebuilt")
+    run.floor("C14.R3", n_rebuilt, 1, "returns of visit_Attribute that rebuild the attribute")
     # the projection is attempted for *every* attribute of a Dict literal: nothing else about the attribute name decides it
     from ..lib import call_events
 
